@@ -211,3 +211,27 @@ func verifC07DropKeepSameLabel(isKeep bool) {
 
 func VerifHarness_C07_DropSameLabel() { verifC07DropKeepSameLabel(false) }
 func VerifHarness_C07_KeepSameLabel() { verifC07DropKeepSameLabel(true) }
+
+// C07-O1c: a label renamed to itself (`label_format a=a`, which the parser
+// accepts) keeps its value: renaming src to dst leaves dst = old src.
+func VerifHarness_C07_RenameSelf() {
+	expr, err := logql.Parse(`{x="y"} | label_format a=a`, logql.ParseOptions{})
+	vsymAssert(err == nil, "label_format a=a parses")
+	proc, err := buildLabelFormat(expr.(*logql.LogExpr).Pipeline[0].(*logql.LabelFormatExpr))
+	vsymAssert(err == nil, "label_format stage builds")
+	v := vsymString("v", 1)
+	set := newLabelSet()
+	set.Set("a", pcommon.NewValueStr(v))
+	set.Set("b", pcommon.NewValueStr("2"))
+	_, keep := proc.Process(1, "l", set)
+	vsymAssert(keep, "label_format never drops a line")
+	got, ok := verifGet(set, "a")
+	if !ok {
+		vsymFinding("F36", true, "`label_format a=a` deletes label a: the value is stored under the destination and the source is then deleted, which is the same label")
+		return
+	}
+	vsymAssert(ok && got == v, "a label renamed to itself keeps its value")
+	_, okB := verifGet(set, "b")
+	vsymAssert(okB, "other labels are untouched")
+	vsymReach("C07_rename_self")
+}
